@@ -34,6 +34,21 @@ def ser_mapper(node, data):
     return data
 
 
+def ser_mapper_inplace(node, data):
+    """documented style: update `data` in place and return nothing"""
+    ser_mapper(node, data)
+
+
+def deser_consume(parent, data):
+    """a deserialiser that takes the entry apart (Item(**fields) after popping what it does not need): the library has
+    to read data_id / kind from the entry BEFORE it hands the entry to the mapper"""
+    data.pop("data_id", None)
+    data.pop("kind", None)
+    if "name" in data:
+        return Item(data.pop("name"), data.pop("rank"))
+    return data.pop("str")
+
+
 def deser_mapper(parent, data):
     if "name" in data:
         return Item(data["name"], data["rank"])
@@ -346,7 +361,7 @@ def obs_serial(c: Ctx, enc, *, props, quick=True, salt=0, tmpdir=None):
             if hasattr(fl, "lib_mappers"):
                 kw["mapper"] = fl.lib_mappers[0]
             elif not derived and mapper_needed:
-                kw["mapper"] = ser_mapper if salt % 2 else (lambda node, data: ser_mapper(node, dict(data)))
+                kw["mapper"] = (ser_mapper, (lambda node, data: ser_mapper(node, dict(data))), ser_mapper_inplace)[salt % 3]
             load_kw = {}
             # string data under explicit (or callback-made) ids is stored as {"str":, "data_id":} entries, which the
             # default deserialize mapper reads: a callback is passed only every other time
@@ -356,7 +371,7 @@ def obs_serial(c: Ctx, enc, *, props, quick=True, salt=0, tmpdir=None):
             if hasattr(fl, "lib_mappers"):
                 load_kw["mapper"] = fl.lib_mappers[1]
             elif not derived and need_load_mapper:
-                load_kw["mapper"] = deser_mapper
+                load_kw["mapper"] = deser_mapper if (salt // 2) % 2 else deser_consume
             cls = tree_class(fl, derived)
             a = {"key_map": km_mode, "value_map": vm_mode, "compression": comp, "target": target, "derived": derived,
                  "is_str": fl.is_str, "strs": fl.str_values()}
